@@ -303,7 +303,21 @@ def history(ctx, hid):
 
 
 def elem_stream(ctx, k):
-    """mixed-type element collections"""
+    """mixed-type element collections; an exception inside femio on these in-quantifier inputs is a failure"""
+    try:
+        _elem_stream(ctx, k)
+    except (RuntimeError, AssertionError):
+        raise
+    except Exception as e:
+        import traceback
+        tb = traceback.extract_tb(e.__traceback__)
+        where = next((f'{f.filename.split("/")[-1]}:{f.lineno}' for f in reversed(tb) if '/femio/' in f.filename), '?')
+        ctx.case(('elem-raises', k), nontrivial=True)
+        ctx.fail('element-collection:raises', f'a public read path of an element collection raised {type(e).__name__}: {e} (at {where})',
+                 {'stream': 'elements', 'index': k, 'seed_note': 're-run with the same VERIF_SEED'}, None)
+
+
+def _elem_stream(ctx, k):
     from femio import FEMAttribute, FEMElementalAttribute
     r = ctx.rng
     m = mg.gen_combinatorial(r, max_elems=ctx.n(8, 14))
